@@ -39,6 +39,7 @@ EXPLANATION = ('equity sample = wallet + unrealised PnL (futures) / free + reser
                'one initial sample, one per simulated day, one final. Every number reported by metrics.trades equals its defining '
                'expression of contracts/C16.py (bounded in list length).')
 MANIFEST = {
+    'technique': 'contract-based deductive verification: symbolic execution of the real ASTs (z3/cvc5); metrics.trades over a bounded pandas model (self-tested against pandas), native replay',
     'category': 'proof',
     'text': 'The equity series part of the property is proved: save_daily_portfolio_balance appends wallet + unrealised PnL of all open '
             'positions in futures and, in spot, free quote + quote reserved by the resting buys of every route + market value of the '
